@@ -1375,7 +1375,7 @@ class AstEval:
 
     async def recurse_assign(self, lhs, val):
         """Recursive assignment."""
-        if isinstance(lhs, ast.Tuple):
+        if isinstance(lhs, (ast.Tuple, ast.List)):
             try:
                 vals = [*(iter(val))]
             except Exception:
@@ -2013,7 +2013,7 @@ class AstEval:
     async def get_target_names(self, lhs):
         """Recursively find all the target names mentioned in the AST tree."""
         names = set()
-        if isinstance(lhs, ast.Tuple):
+        if isinstance(lhs, (ast.Tuple, ast.List)):
             for lhs_elt in lhs.elts:
                 if isinstance(lhs_elt, ast.Starred):
                     names.add(lhs_elt.value.id)
